@@ -6,6 +6,7 @@ import (
 	"math"
 	"strings"
 	"testing"
+	"time"
 
 	"github.com/cybergarage/go-redis/redis"
 	"github.com/cybergarage/go-redis/redis/proto"
@@ -228,6 +229,23 @@ func runC04(t *testing.T, tape *sim.Tape, tier string) *Outcome {
 			}
 		}
 	}
+	// one run in eight: the client stops reading behind a small receive window for a long (simulated) time, then
+	// reads on - whatever the server did meanwhile, what it has written must still be whole frames in order
+	if tape.Draw(8, "stall") == 7 {
+		c.P.Dir(1).Window = 64 + tape.Draw(4000, "window")
+		c.P.Dir(1).Auto = true
+		c.stalled = true
+		c.send(len(reqs))
+		c.pump(nil)
+		c.S.Advance([]time.Duration{time.Second, 11 * time.Second, 61 * time.Second, time.Hour}[tape.Draw(4, "stallfor")])
+		c.pump(nil)
+		c.stalled = false
+		o.stat("stalled_reader_runs", 1)
+		if c.S.Counter["write_blocked"] > 0 {
+			o.stat("stalled_reader_runs_with_blocked_write", 1)
+		}
+		c.pump(inv)
+	}
 	for c.sentReqs() < len(reqs) && len(o.Viol) == 0 && !c.done {
 		if lockstep {
 			c.send(c.sentReqs() + 1)
@@ -251,7 +269,7 @@ func init() {
 	register(&Check{
 		ID: "C04", Bubble: true, Run: runC04,
 		Runs:   map[string]int{"quick": 40000, "thorough": 1500000},
-		Rule:   "a case is one (client value stream, handler-result plan, delivery schedule) triple: client values of every RESP type incl. odd command arrays and hostile bytes; per handler call an injected result (hostile status/error text incl. texts padded so that the reply line ends within a few bytes of a power of two between 64 B and 64 KiB, arbitrary value tree, nil, error, message+error, floats incl. Inf/NaN, status/error/integer/bulk messages whose payload the handler set through proto.Message.SetBytes); distinct = distinct (shape, chunking, stream hash) signatures; non-trivial = handler faults enabled or chunked delivery",
+		Rule:   "a case is one (client value stream, handler-result plan, delivery schedule) triple: client values of every RESP type incl. odd command arrays and hostile bytes; per handler call an injected result (hostile status/error text incl. texts padded so that the reply line ends within a few bytes of a power of two between 64 B and 64 KiB, arbitrary value tree, nil, error, message+error, floats incl. Inf/NaN, status/error/integer/bulk messages whose payload the handler set through proto.Message.SetBytes); one run in eight has the client stop reading behind a small window for 1 s .. 1 h of simulated time before it reads on; distinct = distinct (shape, chunking, stream hash) signatures; non-trivial = handler faults enabled or chunked delivery",
 		Real:   []string{"redis.Server connection loop, dispatch, executors, error construction, redis/proto serializer"},
 		Stub:   []string{"transport: simulated net.Conn", "handler: double returning injected results built with the public constructors"},
 		Assume: []string{"an integer message whose text a handler set to non-numeric bytes is judged on framing only (one complete line without CR/LF): the framework cannot make it a number", "arrays are built with NewArrayMessage/Append of non-nil messages"},
